@@ -22,6 +22,10 @@ def _world(key):
 
 def _task(args):
     key, idx, path, cyc = args
+    import os
+    if os.environ.get("VERIF_DEBUG_HANG") and not _WORLDS:
+        import faulthandler
+        faulthandler.dump_traceback_later(int(os.environ["VERIF_DEBUG_HANG"]), file=open(f"/tmp/hang_{os.getpid()}.txt", "w"))
     w = _world(key)
     r = L.Replayer(w, None, route_cycle=cyc)
     try:
